@@ -101,3 +101,12 @@ Definition check_all (hs : list (N * list (op * obs))) : list N :=
                      | [] => []
                      | r => fst h :: r ++ [999999]
                      end) hs.
+
+(** lineWriter cases: two write+flush rounds through one writer *)
+From Dawn Require Import Build.LineWriter.
+Definition lw_case_ok (c1 : list (list N)) (l1 : list (list N)) (c2 : list (list N)) (l2 : list (list N)) : bool :=
+  let (b1, m1) := lw_run [] c1 in
+  let (_, m2) := lw_run b1 c2 in
+  list_eqb (list_eqb N.eqb) m1 l1 && list_eqb (list_eqb N.eqb) m2 l2.
+Definition lw_mismatches (cs : list (N * (list (list N) * list (list N) * list (list N) * list (list N)))) : list N :=
+  map fst (filter (fun ic => match snd ic with (c1, l1, c2, l2) => negb (lw_case_ok c1 l1 c2 l2) end) cs).
